@@ -47,6 +47,10 @@ pub struct Step {
     /// change the target before this dump: unmap the extra mapping (happens once)
     #[serde(default)]
     pub unmap_extra: bool,
+    /// for the duration of this request (reused and fresh writer alike) parked thread k is held by
+    /// another tracer, so that it cannot be attached and is missing from this one dump
+    #[serde(default)]
+    pub hold: Option<u16>,
 }
 
 #[derive(Debug, Clone, PartialEq, Eq, Hash, Serialize, Deserialize)]
@@ -158,7 +162,7 @@ pub fn check(c: &Case) -> Verdict {
         let mut e = s.clone();
         if s.same_config {
             if let Some(p) = eff.last() {
-                e = Step { cue: s.cue, protect: s.protect, unmap_extra: s.unmap_extra, fail: s.fail.filter(|f| f.0 == 1), same_config: true, ..p.clone() };
+                e = Step { cue: s.cue, protect: s.protect, unmap_extra: s.unmap_extra, hold: s.hold, fail: s.fail.filter(|f| f.0 == 1), same_config: true, ..p.clone() };
                 if let Some((2, _)) = p.fail {
                     e.fail = p.fail;
                 }
@@ -241,14 +245,36 @@ pub fn check(c: &Case) -> Verdict {
             Some((1, k)) => crate::vcore::dest::Fault::ErrAt(2 + k as u64 % 60),
             _ => crate::vcore::dest::Fault::None,
         };
+        let held: Option<i32> = s.hold.and_then(|k| {
+            let tid = t.tid(parked_ids[pick(k, parked_ids.len())]);
+            (unsafe { libc::ptrace(libc::PTRACE_SEIZE, tid, 0, 0) } == 0).then_some(tid)
+        });
         let mut d1 = Dest::new(vec![], 0).with_fault(fault);
         let r1 = run_dump(&mut w, &mut d1);
+        if let Some(tid) = held {
+            let_held_thread_run(&t, tid);
+        }
         if !t.wait_settled(&alive_spec) {
             return Verdict::Inconclusive("target did not settle between dumps".into());
         }
         let mut fresh = make_writer(pid, &o);
         let mut d2 = Dest::new(vec![], 0).with_fault(fault);
         let r2 = run_dump(&mut fresh, &mut d2);
+        if let Some(tid) = held {
+            // a seized thread can only be released from a stop
+            let_held_thread_run(&t, tid);
+            unsafe {
+                libc::ptrace(libc::PTRACE_INTERRUPT, tid, 0, 0);
+                let mut st = 0;
+                libc::waitpid(tid, &mut st, libc::__WALL);
+                libc::ptrace(libc::PTRACE_DETACH, tid, 0, 0);
+            }
+            changed = true;
+            classes.push("thread-held-by-another-tracer-during-one-request".to_string());
+            if tid == o.blamed {
+                classes.push("blamed-thread-held-by-another-tracer-during-one-request".to_string());
+            }
+        }
         if s.fail.is_some() {
             classes.push("failed-request-in-history".to_string());
         }
@@ -310,6 +336,34 @@ pub fn check(c: &Case) -> Verdict {
     Verdict::pass_c(if nt { Some(fp_json(c)) } else { None }, classes)
 }
 
+/// The other tracer's duty: the writer's SIGSTOP put the held thread into a group-stop that only its
+/// tracer can end.  Consumes the pending stop reports and lets the thread run on (after the writer's
+/// SIGCONT), until it is back in its system call.
+fn let_held_thread_run(t: &Target, tid: i32) {
+    let deadline = std::time::Instant::now() + std::time::Duration::from_millis(200);
+    let mut quiet = 0;
+    while std::time::Instant::now() < deadline && quiet < 3 {
+        let mut st = 0;
+        let r = unsafe { libc::waitpid(tid, &mut st, libc::__WALL | libc::WNOHANG) };
+        if r == tid && libc::WIFSTOPPED(st) {
+            let sig = libc::WSTOPSIG(st);
+            let event = st >> 16;
+            // group-stop / interrupt reports carry an event code; anything else is a signal on its way
+            // to the thread and is passed on (SIGSTOP itself would only stop the group once more)
+            let pass = if event != 0 || sig == libc::SIGSTOP { 0 } else { sig };
+            unsafe { libc::ptrace(libc::PTRACE_CONT, tid, 0, pass) };
+            quiet = 0;
+            continue;
+        }
+        if t.thread_status(tid).map(|(s, _)| s == 'S').unwrap_or(true) {
+            quiet += 1;
+        } else {
+            quiet = 0;
+        }
+        std::thread::sleep(std::time::Duration::from_micros(300));
+    }
+}
+
 fn step_strategy() -> impl Strategy<Value = Step> {
     (
         any::<u16>(),
@@ -322,9 +376,9 @@ fn step_strategy() -> impl Strategy<Value = Step> {
         proptest::option::weighted(0.3, any::<u16>()),
         proptest::bool::weighted(0.2),
         proptest::option::weighted(0.3, (1u8..3, any::<u8>())),
-        (proptest::option::weighted(0.35, any::<bool>()), proptest::bool::weighted(0.4), proptest::bool::weighted(0.4), proptest::bool::weighted(0.2)),
+        (proptest::option::weighted(0.35, any::<bool>()), proptest::bool::weighted(0.4), proptest::bool::weighted(0.4), proptest::bool::weighted(0.2), proptest::option::weighted(0.25, any::<u16>())),
     )
-        .prop_map(|(blamed, crash, crash_rip_in_map, app, skip, principal, sanitize, cue, blamed_foreign, fail, (protect, same_config, principal_in_extra, unmap_extra))| Step { blamed, crash, crash_rip_in_map, app, skip, principal, sanitize, cue, blamed_foreign, fail, protect, same_config, principal_in_extra, unmap_extra })
+        .prop_map(|(blamed, crash, crash_rip_in_map, app, skip, principal, sanitize, cue, blamed_foreign, fail, (protect, same_config, principal_in_extra, unmap_extra, hold))| Step { blamed, crash, crash_rip_in_map, app, skip, principal, sanitize, cue, blamed_foreign, fail, protect, same_config, principal_in_extra, unmap_extra, hold })
 }
 
 pub fn run(ctx: &mut LaneCtx) {
@@ -333,7 +387,7 @@ pub fn run(ctx: &mut LaneCtx) {
         SubSpec {
             name: "reuse-history",
             cases: (960, 15_000),
-            rule: "one writer (optionally configured with caller-supplied auxiliary-vector values that differ from the kernel's: entry address in another module; optionally with 22..27 threads and a size limit just above the estimate threshold), 2..5 dump() calls, some of which are made to fail (destination I/O error at a generated call, unreadable app memory); between calls the public configuration (blamed thread, crash context on/off, app memory, principal address, skip, sanitize) may change or the writer is left untouched, and the target may change (an exiter thread is cued; the last page of the application mapping - into which registered regions may run - becomes inaccessible or accessible again); after each call a freshly configured writer dumps the same blocked target; oracle = strict structure of both + normal-form equality; non-trivial = >= 2 calls with a memory-producing option or a change between calls; distinct = hash of case",
+            rule: "one writer (optionally configured with caller-supplied auxiliary-vector values that differ from the kernel's: entry address in another module; optionally with 22..27 threads and a size limit just above the estimate threshold), 2..5 dump() calls, some of which are made to fail (destination I/O error at a generated call, unreadable app memory); between calls the public configuration (blamed thread, crash context on/off, app memory, principal address, skip, sanitize) may change or the writer is left untouched, and the target may change (an exiter thread is cued; the last page of the application mapping - into which registered regions may run - becomes inaccessible or accessible again; a parked thread - possibly the blamed one - is held by another tracer for the duration of one request and so missing from it); after each call a freshly configured writer dumps the same blocked target; oracle = strict structure of both + normal-form equality; non-trivial = >= 2 calls with a memory-producing option or a change between calls; distinct = hash of case",
             strategy: (0u8..6, 0u8..3, proptest::option::weighted(0.3, 0u32..20_000), proptest::collection::vec(step_strategy(), 2..6), prop_oneof![2 => Just(0u8), 1 => 1u8..3], proptest::option::weighted(0.15, any::<u16>())).prop_map(|(parked, exiters, limit, steps, direct_auxv, near_threshold)| Case { parked, exiters, limit, steps, direct_auxv, near_threshold }).boxed(),
             max_shrink_iters: 100,
             log_current: true,
